@@ -51,7 +51,8 @@ ODD_IMPORTS = ["nosuchpkg_zz", "zcsim_notpkg", "os", "os.path", "json",
                "ZConfig.components.logger", "zconfig.components.basic",
                "1abc", "a-b", "\u00e9", "sys", "__main__", "builtins",
                "zcsim_p0:x", "zcsim_p0/component.xml", "email.mime",
-               "zcsim_pnl", "zcsim_pnl", "ZCSIM_PNL"]
+               "zcsim_pnl", "zcsim_pnl", "ZCSIM_PNL", "zcsim_pns",
+               "zcsim_pns"]
 
 
 def _lines(text):
